@@ -260,6 +260,8 @@ func handleLRem(params internal.HandlerFuncParams) ([]byte, error) {
 			if list[i] == value {
 				list = append(list[:i], list[i+1:]...)
 				absoluteCount += 1
+				// The next element has moved into position i: look at it too.
+				i--
 			}
 		}
 	case count > 0:
@@ -271,6 +273,8 @@ func handleLRem(params internal.HandlerFuncParams) ([]byte, error) {
 			if list[i] == value {
 				list = append(list[:i], list[i+1:]...)
 				absoluteCount -= 1
+				// The next element has moved into position i: look at it too.
+				i--
 			}
 		}
 	case count < 0:
